@@ -326,8 +326,8 @@ def _shape_like(spec, ov, a):
 # ---------------------------------------------------------------- strategies
 @st.composite
 def histories(draw, tier, max_ops=8, objects=('A',), copies=('deepcopy',), name_rate=3, end_with_calc=True, fcopies=False,
-              start_with_copy=False, edits=False):
-    spec = draw(G.specs(tier, max_books=2, wholecols=False, name_rate=name_rate, arr_rate=4, alias_rate=3, fname_rate=6))
+              start_with_copy=False, edits=False, undef_rate=0):
+    spec = draw(G.specs(tier, max_books=2, wholecols=False, name_rate=name_rate, arr_rate=4, alias_rate=3, fname_rate=6, undef_rate=undef_rate))
     path = draw(st.sampled_from(['dict', 'dict', 'file']))
     forms = [c for c in spec['cells'] if 'f' in c and 'arr' not in c]
     pop = sorted(W.populated(spec))
